@@ -346,7 +346,8 @@ class NumpyDataWrapper(SourceDataWrapper):
             A structured numpy array, containing the required chunks of all the relevant data sets from the source data.
         """
 
-        if self._dtype == self._data_source.dtype:
+        if self._dtype == self._data_source.dtype and all(key == loc for key, loc in self._mapping.items()):
+            # (the fields must also be mapped one to one: equal names do not mean that X is taken from X)
             # start and stop are relative to the requested row range (from_idx, to_idx)
             stop_idx = self._to_idx if stop is None else self._from_idx + stop
             return self._data_source[self._from_idx + start:stop_idx]
